@@ -411,11 +411,13 @@ for _pid, _ts in LOOP2_THMS.items():
 
 # failing sends: the datagrams that DO leave must still be complete valid responses (C02, C09)
 _RESPSEND = {"args": ["respsend"], "shards_quick": 4, "shards_thorough": 8}
-for _pid in ("C02", "C09"):
+for _pid in ("C02", "C09", "C10"):
     PROPS[_pid]["streams"] = PROPS[_pid]["streams"] + [_RESPSEND]
     PROPS[_pid]["ops"] = PROPS[_pid]["ops"] + ["respsend"]
     PROPS[_pid]["rule"] += ("; failing sends: Responder::send_responses on a real socket where some return addresses cannot be sent to (IPv6 address from an IPv4 socket; UDP port 0 of an address "
-                            "that also has reachable requests), patterns none/first/last/middle/all/random: every datagram that arrives must verify (independent Lean verifier) for a distinct request queued for that address")
+                            "that also has reachable requests), patterns none/first/last/middle/all/random: every datagram that arrives must verify (independent Lean verifier: certificate under the seed's long-term key, "
+                            "response signature, Merkle path) for a distinct request queued for that address; every third case is preceded by an earlier batch through the SAME responder "
+                            "(1..17 requests, none/some/all of its sends failing, reset() in between as the server does)")
 
 
 # ---------------------------------------------------------------------------------------------------------------------
@@ -487,6 +489,12 @@ BRIDGE = {
                      "client_stats_merge_eq", "client_stats_merge_other"],
         "props": ["C17"],
     },
+    "Rough.Bridge.Grease": {
+        "rs_modules": ["Grease", "Message"],
+        "theorems": ["grease_new_eq", "should_add_error_disabled", "should_add_error_enabled", "add_errors_sim", "add_errors_sim_gen",
+                     "add_errors_sim_needs_sig", "greaseq_is_grease"],
+        "props": ["C02"],
+    },
     "Rough.Bridge.Merkle": {
         "rs_modules": ["Merkle"],
         "theorems": ["new_eq", "node_len_eq", "hash_leaf_eq", "hash_nodes_eq", "finalize_output_sim", "push_leaf_sim", "reset_eq",
@@ -509,6 +517,7 @@ _BRIDGE_WHAT = {
     "Rough.Bridge.Config": "config/mod.rs is_valid_config (every range / presence / directory / address decision of the start-up validator)",
     "Rough.Bridge.ServerLoop": "server.rs collect_requests and service_socket (the datagram path: classification of every received datagram, queuing, the two batches per pass, at most 16 batches per call, the backlog flag)",
     "Rough.Bridge.Stats": "stats/{mod,aggregated,per_client}.rs (every add_* of both recorders = the model's record; getters = the model's totals; ClientStats::merge)",
+    "Rough.Bridge.Grease": "grease.rs (new, should_add_error, add_errors, randomly_order_tags, corrupt_response_signature; the random generator is a tape of draws)",
     "Rough.Bridge.Tables": "tag.rs / version.rs (wire values, from_wire, is_nested, names, signing contexts, supported-versions list: the tables the other generated modules use through externs)",
     "Rough.Bridge.SendResponses": "responder.rs send_responses (the whole batch loop incl. failing sends, fault injection, lazily evaluated debug! arguments, statistics events)",
 }
